@@ -252,6 +252,8 @@ package region
 //@ pred region.netRange(c) = -2147483000 < ghostat("net", c) && ghostat("net", c) < 2147483000
 
 //@ func region.(*client).inFlightUp
+// (holding inFlightM for ever would block the reader after it has taken a call out of the sent table: C03)
+//@   props C03
 //@   requires inflightInv(c) && netRange(c)
 //@   modifies F.region.client.inFlight, X.net, X.armed
 //@   at call Lock#1 ghost net[c] == ghostat("net", c) + 1
@@ -261,6 +263,8 @@ package region
 //@   ensures[C18] forall(k, k != c ==> ghostat("net", k) == old(ghostat("net", k)))
 
 //@ func region.(*client).inFlightDown
+// (holding inFlightM for ever would block the reader after it has taken a call out of the sent table: C03)
+//@   props C03
 //@   requires inflightInv(c) && netRange(c)
 //@   modifies F.region.client.inFlight, X.net, X.armed
 //@   at call Lock#1 ghost net[c] == ghostat("net", c) - 1
@@ -490,6 +494,11 @@ package region
 //@   loop 3 invariant[C02] forall(j, 0 <= j && j < i, ra[j] != nil && allocated(ra[j]))
 //@   loop 3 invariant[C02] forall(j, 0 <= j && j < i, ra[j].Region != nil && allocated(ra[j].Region))
 //@   loop 3 invariant[C02] forall(j, 0 <= j && j < i, sameslice(ra[j].Region.Value, m.regions[j].Name()))
+// the cellblocks of the request follow the region actions (C05): the sizing pass does not touch the list, and each
+// region's cellblocks are appended in the very iteration that creates its region action (the two passes enumerate the
+// map in unrelated orders, so appending anywhere else would detach the cells from their actions)
+//@   loop 2 invariant[C05] sameslice(cbs, atentry(2, cbs))
+//@   loop 3 invariant[C05] len(cbs) == atentry(3, len(cbs)) + sumvisited(r, len(actionsPerReg[r].cellblocks))
 // the action built for slot k carries the 1-based index k+1 (C02): ghost actof[k] = the action appended for slot k
 //@   at call append#1 ghost actof[i] == a
 //@   loop 1 invariant len(indices) == len(m.calls) && len(pbActions) == len(m.calls) && forall(k, i <= k && k < len(m.calls), !escaped(indices, k) && !escaped(pbActions, k))
